@@ -107,6 +107,15 @@ func mpi(n []byte) []byte {
 }
 
 // sigPacket builds an OpenPGP signature packet (old-format header) of version 3 or 4.
+// sigLayout chooses where a version 4 signature names its issuer: 0 = issuer subpacket in the unhashed area (the classic
+// layout); 1 = creation time, issuer, issuer fingerprint all hashed (go-crypto, nfpm, goreleaser); 2 = issuer fingerprint
+// hashed, issuer unhashed (GnuPG 2.1+).  The fingerprint's last 8 octets are the issuer key id, as in an honest signature.
+// sigLastZero makes the packet end in a zero octet (1 real signature in 256 does).
+var (
+	sigLayout   int
+	sigLastZero bool
+)
+
 func sigPacket(version int, pk, hash byte, issuer uint64, withIssuer bool, r *rng) []byte {
 	var body bytes.Buffer
 	kid := make([]byte, 8)
@@ -114,12 +123,21 @@ func sigPacket(version int, pk, hash byte, issuer uint64, withIssuer bool, r *rn
 	if version == 4 {
 		body.Write([]byte{4, 0, pk, hash})
 		hashed := []byte{5, 2, 0x5f, 0, 0, 0}
-		binary.Write(&body, binary.BigEndian, uint16(len(hashed)))
-		body.Write(hashed)
+		fpr := append(append([]byte{22, 33, 4}, r.bytes(12)...), kid...)
 		var un []byte
 		if withIssuer {
-			un = append([]byte{9, 16}, kid...)
+			switch sigLayout {
+			case 1:
+				hashed = append(append(hashed, append([]byte{9, 16}, kid...)...), fpr...)
+			case 2:
+				hashed = append(hashed, fpr...)
+				un = append([]byte{9, 16}, kid...)
+			default:
+				un = append([]byte{9, 16}, kid...)
+			}
 		}
+		binary.Write(&body, binary.BigEndian, uint16(len(hashed)))
+		body.Write(hashed)
 		binary.Write(&body, binary.BigEndian, uint16(len(un)))
 		body.Write(un)
 	} else {
@@ -135,6 +153,9 @@ func sigPacket(version int, pk, hash byte, issuer uint64, withIssuer bool, r *rn
 	for i := 0; i < nm; i++ {
 		m := r.bytes(32)
 		m[0] |= 0x80
+		if sigLastZero && i == nm-1 {
+			m[31] = 0
+		}
 		body.Write(mpi(m))
 	}
 	var p bytes.Buffer
@@ -244,6 +265,9 @@ func genC19(tier string, r *rng) {
 		name string
 	}{{2, "SHA-1"}, {8, "SHA-256"}, {9, "SHA-384"}, {10, "SHA-512"}, {11, "SHA-224"}, {1, "MD5"}}
 	for i := 0; i < n; i++ {
+		// every third package: signatures in one of the two newer layouts; every fifth: binary values (digest, signature
+		// packets) that END in a zero octet
+		sigLayout, sigLastZero = []int{0, 1, 2}[i%3], i%5 == 1
 		name, ver, rel, arch := r.pick(strsPool[:4]), r.pick(strsPool[3:5]), r.pick(strsPool[5:6]), r.pick(strsPool[6:9])
 		major := byte(3 + r.intn(2))
 		gt := []string{"G", hxs(name), hxs(ver), hxs(rel), hxs(arch)}
@@ -251,6 +275,12 @@ func genC19(tier string, r *rng) {
 		md5, sha1, sha256 := "-", "-", "-"
 		if r.intn(3) > 0 {
 			d := r.bytes(16)
+			if sigLastZero {
+				d[15] = 0
+				if i%10 == 1 {
+					d[14], d[13] = 0, 0
+				}
+			}
 			sig = append(sig, rpmEntry{tag: 1004, typ: 7, bin: d, forceType: -1, forceCount: -1, forceOffset: -1})
 			md5 = hx(d)
 		}
@@ -347,6 +377,8 @@ func genC19(tier string, r *rng) {
 
 // rpmCountSweep: a systematic sweep over ONE package: every index entry of both headers x every small count (0 .. 8) x its
 // own type and the three string types — counts that stay inside the store pass the plausibility pre-check and reach go-rpm
+func init() { _ = sigLayout }
+
 func rpmCountSweep() (out [][]byte) {
 	mk := func() ([]rpmEntry, []rpmEntry) {
 		e := func(tag, typ int) rpmEntry { return rpmEntry{tag: tag, typ: typ, forceType: -1, forceCount: -1, forceOffset: -1} }
